@@ -2,7 +2,24 @@
 
 TB_VERUS = [
     'Verus 0.2026.09.13 + Z3 (SMT encoding, rustc front end)',
-    'vp/extract.py lexical normalisations N1-N4 preserve meaning (counts reported per run)',
+    'vp/extract.py lexical normalisations N1-N4 and the desugarings N5 (ref patterns `Some(&p)` -> bind + deref) and N6 '
+    '(`impl Iterator` return type of an assumed accessor -> CopyIter) preserve meaning (counts reported per run); ghost text '
+    '(loop invariants, proof blocks) is spliced into bodies in place and is erased at compile time',
+]
+TB_REGISTRY = [
+    'contracts of Object / Service / ConnectionState / SerialMap / State methods are imported verbatim from the leaf units '
+    'that verify them (//@fn-from)',
+    'iterator accessors Object::services, Service::function_calls, Service::subscribed_conn_ids, ConnectionState::{objects, '
+    'senders, ...} (`self.<set>.iter().copied()` and friends: iterator adapters are outside Verus) are ASSUMED to enumerate '
+    'their set, each element once',
+    'ConnectionId / cookies / UUIDs are opaque keys obeying the hash-key model; ConnectionId equality is identity of the '
+    'numeric id (unit broker_conn_id proves ids of live connections are pairwise distinct)',
+    'random UUIDv4 cookies: ASSUMED not to collide with a live cookie at the creation sites (explicit assume(..) after '
+    'ObjectCookie::new_v4() / ServiceCookie::new_v4())',
+    'messages on the wire are not part of the state model (ConnectionState::send has a precondition only): which reply '
+    'variant is sent is NOT decided; decided is what the tables and the deferred-work queues (State) hold afterwards',
+    'ProtocolVersion constants and ordering are modelled in the prelude (lexicographic (major, minor)); cfg(feature = '
+    '"statistics"/"introspection") code is dropped by the extraction',
 ]
 TB_KANI = [
     'Kani 0.68 + CBMC 6.11 + CaDiCaL (bit-precise symbolic execution of the compiled MIR)',
@@ -25,6 +42,28 @@ TB_STUB = ['kani::stub of bytes::BytesMut::reserve_inner by a function that asse
            'real function is a proof obligation), used to keep the re-allocation path out of the formula']
 
 PROPS = {
+    'C03': dict(
+        level='proof',
+        verus_units=['broker_object', 'broker_handlers_registry'],
+        trusted_base=TB_VERUS + TB_REGISTRY,
+        assumptions=[
+            'the registry invariant reg_inv is a precondition of every handler; it is preserved by every VERIFIED handler '
+            '(create_object, destroy_object, create_service, create_service2, destroy_service, remove_object, remove_service); '
+            'handlers that touch the same tables and are not verified in this unit are listed under undecided',
+        ],
+        undecided_clauses=[
+            'which reply (ok / duplicate / invalid-object / foreign-object) goes on the wire: replies are outside the state '
+            'model; decided instead: the tables change exactly when the bus state says the request is acceptable',
+            'queries (query_service_version / query_service_info: match arms with ref patterns, no state change)',
+            'cookie never used before: freshness w.r.t. LIVE cookies is an assumption on the random generator',
+        ],
+        explanation='registry handlers of broker.rs on their verbatim text: the object tables (cookie->uuid, uuid->Object) and the '
+                    'service tables (cookie->ids, (object uuid, service uuid)->Service) stay inverse to each other (at most one '
+                    'live object per UUID, one live service per (object, service UUID)); an object or service is created only '
+                    'for the connected owner when no live one has that UUID, and is destroyed only by its owner; destroying an '
+                    'object removes all its services, their pending calls (one InvalidService per call not aborted) and queues '
+                    'one ServiceDestroyed per connected subscriber; nothing belonging to another object or connection changes',
+    ),
     'C14': dict(
         level='other',
         kani=[dict(package='aldrin-core', injections=[KANI_CORE_PKT], jobs=5)],
